@@ -12,7 +12,9 @@ CLAIMED = {
             "is replayed on the real world through several API paths and each logged event is validated by the monitor "
             "(component sets, values, other entities untouched).", "7 C01"),
     "C02": ("Pool free-list invariants and handle uniqueness checked by TLC on layer B; on every replayed event the monitor "
-            "checks Alive() of every handle ever issued, uniqueness of returned handles and Stats().Entities.Used.", "7 C02"),
+            "checks Alive() of every handle ever issued (and of the handles issued before the last Reset), uniqueness of returned "
+            "handles and Stats().Entities.Used; ArkPool.tla: an inductive invariant of the entity pool checked with Apalache "
+            "(handle freshness and exact liveness for histories of any length).", "7 C02"),
     "C03": ("Query walk of layer B equals layer A's Select in every reachable state (QueriesExact); the executor runs a "
             "seed-sampled battery of filters (with/without/exclusive/relation targets, typed and ID-based) after every replayed "
             "sequence; visited bag, yielded data, pointer identity, Count and EntityAt are validated by the monitor.", "7 C03"),
@@ -45,8 +47,10 @@ CLAIMED = {
     "C10": ("Every layer-A action is guarded: precondition false => panic and nothing changes.  After each replayed history "
             "the executor attempts a seed-sampled (thorough: complete) battery of misuse calls derived from the current state "
             "(dead / recycled / zero handles in every checked single-entity operation, duplicate add, remove of a missing "
-            "component, empty component lists, omitted or dead relation targets, batch forms); the monitor requires the panic "
-            "and an identical projection, entity count and lock state afterwards.", "7 C10"),
+            "component, empty component lists, omitted or dead relation targets, batch forms), also in the middle of driven "
+            "histories (what a rejected call leaves in hidden state shows in the valid operations that follow), and every "
+            "structural method of every arity on a locked world; the monitor requires the panic and an identical projection, "
+            "entity count and lock state afterwards.", "7 C10"),
     "C16": ("Reset of layer A is the initial world (registries kept).  Histories with Reset at generator/driver-chosen points "
             "continue to be validated against the specification; filter and observer objects registered before are registered "
             "again after Reset; resources (layer A: w.res, family res) are gone after Reset; a disagreement is attributed to C16 "
@@ -68,13 +72,15 @@ CLAIMED = {
             "referenced from a component of an alive entity must have been finalized and no referenced one may be.", "7 C11"),
     "C12": ("Layer B is a deterministic state machine (every order-defining container is a sequence).  Product traces: the same "
             "TLC-generated and driver-generated histories are executed twice with the same process settings and in further "
-            "processes with different GOGC / GOMAXPROCS (fresh map seeds); ArkProd requires equality of everything logged: "
+            "processes with different GOGC / GOMAXPROCS (fresh map seeds), and with every loading world given its own deserialised "
+            "copy of an entity dump (as worlds in different processes would have); ArkProd requires equality of everything logged: "
             "returned handles, full projections, iteration order of every probe query, callback order, statistics.", "7 C12"),
     "C13": ("ArkConc.tla: FilterN.Query and LockSafe / UnlockSafe as shared-memory steps with vector clocks; NoRace, distinct "
             "bits for overlapping queries, all bits released, termination, for all interleavings of 2-4 goroutines.  The same "
             "scenarios run on the real code built with the Go race detector (4-62 goroutines, shared and separate filters, "
             "registered or not, per-query relation targets, Count / EntityAt / early Close); reports inside package ecs are "
-            "violations; every goroutine's result is validated against Select and the world must be unlocked at the end.", "7 C13"),
+            "violations; every goroutine's result is validated against Select and the world must be unlocked at the end; every other "
+            "run starts on a world with a past (nested queries, Reset).", "7 C13"),
     "C14": ("Layer A has one action per operation kind, whatever the API path, so equivalence is a product-trace property: "
             "the same histories run through Map1..12 / Exchange1..8 / Filter0..8 / Observer1..4 (type parameters permuted, "
             "relations by index and by type) and through the ID-based API; each run is validated against layer A (values "
